@@ -29,7 +29,7 @@ def use_repo():
     return root
 
 
-def in_fresh_process(module, func, arg):
+def in_fresh_process(module, func, arg, extra_env=None):
     """Runs checks.<module>.<func>(arg) in a NEW interpreter on the same tree under test and returns its JSON result:
     whatever a process-wide cache remembers, it has not seen anything yet."""
     import json, subprocess
@@ -37,6 +37,7 @@ def in_fresh_process(module, func, arg):
     code = (f"import json, sys\nfrom vf import common\ncommon.use_repo()\nimport checks.{module} as m\n"
             f"sys.stdout.write('\\n@@RESULT@@' + json.dumps(m.{func}(json.loads(sys.argv[1]))))")
     env = dict(os.environ, PYTHONPATH=VERIF + os.pathsep + os.environ.get("PYTHONPATH", ""), PYTHONDONTWRITEBYTECODE="1", PYTHONHASHSEED="0")
+    env.update(extra_env or {})
     p = subprocess.run([sys.executable, "-c", code, json.dumps(arg)], cwd=VERIF, env=env, capture_output=True, text=True, timeout=900)
     if p.returncode != 0 or "@@RESULT@@" not in p.stdout:
         raise MachineryError(f"sub-process {module}.{func}({arg!r}) failed: rc={p.returncode} {p.stderr[-400:]}")
